@@ -5,18 +5,21 @@
 # with the change applied to /repo (always reverted). Writes seeded/RESULTS.md.
 export GOFLAGS=-mod=mod GOPROXY=off GOSUMDB=off GOTOOLCHAIN=local
 budget=${1:-15}; glob=${2:-*}
+# from a vp run snapshot (vp run --with-repo -- tools/recheck_seeds.sh): everything happens in the snapshots
+if [ -n "$VP_RUN_REPO" ]; then export VSIM_REPO=$VP_RUN_REPO VSIM_VERIF=$(pwd); make setup >/dev/null 2>&1; fi
+REPO=${VSIM_REPO:-/repo}; VERIF=${VSIM_VERIF:-/verif}
 wt=/tmp/recheck-wt
-git -C /repo worktree remove --force $wt 2>/dev/null
-git -C /repo worktree add -q --detach $wt HEAD || exit 2
-out=/verif/seeded/RESULTS.md
-head=$(git -C /repo log --format=%h -1)
+git -C $REPO worktree remove --force $wt 2>/dev/null
+git -C $REPO worktree add -q --detach $wt HEAD || exit 2
+out=$VERIF/seeded/RESULTS.md
+head=$(git -C $REPO log --format=%h -1)
 {
 echo "# Seeded changes against the checks (repository HEAD $head, quick tier with a ${budget} s search budget, $(date -u +%Y-%m-%dT%H:%MZ))"
 echo
 echo "| seeded change | property | valid on HEAD (applies / suite passes / demo fails with / passes without) | check result | first violation |"
 echo "|---|---|---|---|---|"
 } > $out.tmp
-for d in /verif/seeded/$glob/; do
+for d in $VERIF/seeded/$glob/; do
   n=$(basename $d); [ -f $d/patch.diff ] || continue
   prop=$(python3 -c "import json;print(json.load(open('$d/meta.json'))['breaks_property'])")
   valid="n/a"
@@ -36,7 +39,7 @@ for d in /verif/seeded/$glob/; do
   else
     valid="PATCH DOES NOT APPLY"
   fi
-  cd /verif
+  cd $VERIF
   res=$(tools/try_mutant.sh $d/patch.diff $budget $prop 2>&1 | tail -1)
   code=$(echo "$res" | sed -n 's/.*exit=\([0-9]*\).*/\1/p')
   first=$(grep -m1 '^violation' /tmp/try_$prop.log | cut -c1-160 | tr '|' '/')
@@ -45,4 +48,4 @@ for d in /verif/seeded/$glob/; do
   echo "$n: $valid -> $r"
 done
 mv $out.tmp $out
-git -C /repo worktree remove --force $wt
+git -C $REPO worktree remove --force $wt
